@@ -39,7 +39,9 @@ func main() {
 	rep := hx.NewReport("incrtrace/"+*prop, *seed)
 	rng := hx.NewRand(*seed)
 	prof := eng.ProfileFor(*prop)
-	prof.Ops = *ops
+	if len(prof.Prefix) == 0 {
+		prof.Ops = *ops
+	}
 	distinct := hx.Distinct{}
 	reported := map[string]int{}
 	var cases []string
